@@ -1,13 +1,13 @@
 package mgrsim
 
 import (
-	"runtime"
 	"encoding/json"
 	"fmt"
 	"io"
 	"log"
 	"os"
 	"path/filepath"
+	"runtime"
 	"strings"
 	"time"
 
